@@ -248,6 +248,7 @@ def run(ctx) -> None:
   ctx.rule('R3', 'client: operation.error is checked before the response is decoded; '
            'FAILED_PRECONDITION maps to [] and anything else is re-raised', 3)
   ctx.rule('R4', 'raising events inside the acquire..release window are enumerated', 2)
+  ctx.import_rules('C12', {'R6'}, 'R11', 'the Pythia servicer keeps nothing between requests (no failure memory, no policy cache)')
   ctx.import_rules('C04', {'R2'}, 'R6', 'locks around the algorithm are released when it raises (with-blocks only, acyclic order)')
   ctx.import_rules('C02', {'R3', 'R4', 'R5'}, 'R7', 'over-delivery: every surplus trial gets its own fresh id')
   ctx.import_rules('C01', {'R1', 'R2'}, 'R8', 'whatever the failure paths store still satisfies the trial lifecycle (handler bodies included)')
